@@ -230,6 +230,38 @@ func init() {
 					jobs = append(jobs, labelJob(randomLabelProg(rng, 3, dShort, append(dLong, 511), 8), fmt.Sprintf("LP3r/%d", i)))
 				}
 			}
+			// crafted family: two far jumps to ONE non-return label (or to one return) that are more than 255 apart
+			// from each other, so that each needs its own bridge, and a third far jump whose bridge is inserted
+			// between them and the target (a seeded change stretched only the nearest bridge in front of an insertion)
+			ci := 0
+			for _, r1 := range []int{256, 300} {
+				for _, r3 := range []int{256, 300} {
+					for side := 0; side < 4; side++ {
+						for _, tgt := range []string{"R3", "ret1"} {
+							for _, j3 := range []string{"ret1", "ret2", "ret2/F"} {
+								p := LabelProg{K: 3, Runs: []int{1, r1, 300, r3}, T: []string{"", "next", "next", "next"}, F: []string{"", "next", "next", "next"}, Cond: []int{0, ci % 8, (ci + 3) % 8, (ci + 5) % 8}, Mode: ci % 2}
+								if side&1 == 0 {
+									p.T[1] = tgt
+								} else {
+									p.F[1] = tgt
+								}
+								if side&2 == 0 {
+									p.T[2] = tgt
+								} else {
+									p.F[2] = tgt
+								}
+								if j3 == "ret2/F" {
+									p.F[3] = "ret2"
+								} else {
+									p.T[3] = j3
+								}
+								jobs = append(jobs, labelJob(p, fmt.Sprintf("LP3c/%d", ci)))
+								ci++
+							}
+						}
+					}
+				}
+			}
 			// symbolic distances (C06-sym): all one-jump programs; two-jump programs in thorough
 			k1 := []string{"next", "load", "ret1", "ret2"}
 			for _, t := range k1 {
@@ -303,7 +335,7 @@ func init() {
 		},
 		CoverEvery: []string{"assembled"},
 		NeedCovers: []string{"cover.bridged", "cover.ret1", "cover.ret2"},
-		Bounds: map[string]interface{}{"K": "quick: all programs with 1 jump, a fixed stride plus a seed-selected slice of the 2-jump programs, 200 sampled 3-jump programs; thorough: all programs with <=2 jumps for distances {254,255,256}, a seed-selected ninth of those for distances 250..258, 4000 sampled programs with 3 and 4 jumps (also runs of 505..515 so that a bridge needs a bridge)",
+		Bounds: map[string]interface{}{"K": "quick: all programs with 1 jump, a fixed stride plus a seed-selected slice of the 2-jump programs, 200 sampled 3-jump programs, 96 crafted 3-jump programs (two far jumps more than 255 apart sharing one target, a third far jump inserting between them and it); thorough: all programs with <=2 jumps for distances {254,255,256}, a seed-selected ninth of those for distances 250..258, 4000 sampled programs with 3 and 4 jumps (also runs of 505..515 so that a bridge needs a bridge)",
 			"runs": "r0 in {0,1}; other runs from {0,1,2,3} or the long set, at least one long", "targets": "next instruction, a later jump, the start of a later non-empty run, either return; per-branch labels or labels shared by target", "values": "all 16 input words, all jump operands; conditions from the eight JumpTest kinds",
 			"policies": "long conditional lists and name lists above 255 instructions (decision obligation of C01/C03)",
 			"symbolic_distances": "H_LabelSym: the assembler runs on a constructed pre-state whose instruction list has SYMBOLIC length n <= 2^20 and whose jump and label indices are symbolic (abstract slice: only jumps, bridges and returns are known positions). All 17 one-jump programs (every target kind, shared and separate labels) in both tiers - i.e. ALL distances for one jump; 48 of the 720 two-jump programs (12 fixed + seeded) in thorough. Obligation: every resolved skip leads, directly or through inserted long jumps, to the instruction the label marked or to an inserted copy of the return it marked; no fall-through into an inserted instruction; length grows by the number of inserted instructions; Assemble terminates"},
